@@ -830,6 +830,38 @@ def oracle_forms(tn, rng, n, r1, Y1):
         if f:
             f['input'] = dict(f.get('input', inp), scale=ex, scaled_core=jj)
             return f
+    # every core scaled by the same power of two (tiny and huge tensors; all values stay exact): accuracy is scale invariant,
+    # the stabilised norm / scalar product return (z, p) with z * 2^p the exact value although the plain number under/overflows
+    Y2f = [np.array(G, dtype=float) for G in rand_int_tt(rng, n, r1, -4, 4)]
+    D2 = dense_int([np.array(G) for G in Y2f]).astype(object)
+    nn1, nn2, dd, dot = int((D * D).sum()), int((D2 * D2).sum()), int(((D - D2) * (D - D2)).sum()), int((D * D2).sum())
+    for ex in (-250, -100, -37, 41, 100, 250):
+        if abs(ex) * d > 1000:
+            continue
+        Ya, Yb = [G * 2.0 ** ex for G in Yf], [G * 2.0 ** ex for G in Y2f]
+        sinp = dict(inp, Y2=[G.tolist() for G in Y2f], all_cores_scaled_by=f'2^{ex}')
+        try:
+            if nn2 > 0:
+                got, exp = float(tn.accuracy(Ya, Yb)), math.sqrt(dd / nn2)
+                if not abs(got - exp) <= 1e-9 * max(exp, 1e-3):
+                    return dict(what=f'accuracy of two tensors with every core scaled by 2^{ex} differs from ||Y1-Y2||/||Y2||',
+                                function='accuracy', input=sinp, got=got, expected=exp)
+            if nn1 > 0:
+                z, p = tn.norm(Ya, use_stab=True)
+                got = math.log2(float(z)) + float(p) if float(z) > 0 else -math.inf
+                exp = 0.5 * (math.log2(nn1)) + ex * d
+                if not abs(got - exp) <= 1e-6:
+                    return dict(what=f'norm(use_stab=True) of a tensor with every core scaled by 2^{ex}: log2(z)+p differs from log2 ||Y||',
+                                function='norm', input=sinp, got=[float(z), float(p), got], expected=exp)
+            if dot != 0:
+                z, p = tn.mul_scalar(Ya, Yb, use_stab=True)
+                got = math.log2(abs(float(z))) + float(p) if float(z) != 0 else -math.inf
+                exp = math.log2(abs(dot)) + 2 * ex * d
+                if not (abs(got - exp) <= 1e-6 and (float(z) > 0) == (dot > 0)):
+                    return dict(what=f'mul_scalar(use_stab=True) of tensors with every core scaled by 2^{ex}: z*2^p differs from <Y1,Y2>',
+                                function='mul_scalar', input=sinp, got=[float(z), float(p), got], expected=exp)
+        except Exception as e:
+            return dict(what=f'accuracy / stabilised norm / scalar product with every core scaled by 2^{ex} raised {e!r}'[:300], input=sinp)
     # history: the same objects went through every call above and must be bit-identical
     for G0, G1 in zip(snap, Yf):
         if G0.tobytes() != G1.tobytes() or G0.shape != G1.shape:
